@@ -12,7 +12,7 @@ import (
 )
 
 // c11ClockControlled runs the component-level, clock-controlled part of C11 (binary "cctl": instrumented build
-// of internal/cachecontroller, internal/concurrency, pkg/storage/storagewrappers and x/sync/singleflight with
+// of internal/cachecontroller, internal/graph, internal/concurrency, pkg/storage/storagewrappers, x/sync/singleflight and sourcegraph/conc with
 // time and the controller's context timeout on a harness clock, see h/cctl) and merges its summary: what the
 // Server-API histories above cannot decide on the real clock (clock advances, TTL expiry, the iterator-TTL
 // window, the minimum invalidation interval, runs overlapping with requests and writes).
@@ -66,7 +66,7 @@ func c11ClockControlled(o *core.Options, r *core.Report) {
 		"scenarios_completed_unbounded":      sub.Unbounded,
 		"scenarios_whose_unbounded_search_was_cut_by_the_budget": sub.BestEffort,
 		"capped": sub.Capped, "distinct_outcomes": sub.Outcomes, "per_scenario": sub.PerScenario,
-		"what": "ONE cachecontroller.InMemoryCacheController and ONE storagewrappers.CachedDatastore (real code, instrumented) over a harness-owned cache with TTLs on a harness clock (an entry is gone once clock >= set time + ttl), a stub datastore (tuple list; changelog stamped with the harness clock; ReadChanges newest first with the caller's page size, one bulk write fills a page) and a harness clock that also carries the controller's 1 s context timeout; controller interval 10 s, iterator TTL 30 s, query TTL 60 s. (1) HISTORIES: breadth-first search over all sequences of {write/delete of 2 tuples, bulk write of one changelog page, cached Read / ReadUsersetTuples / ReadStartingWithUser consumed to the end, modelled query-cache read (entry = populated-at time + value, used iff its LastModified is after DetermineInvalidationTime's answer, as graph.CachedCheckResolver does), trigger = DetermineInvalidationTime or InvalidateIfNeeded + the spawned run to completion (thorough: also a changelog read that exceeds the timeout / fails), clock advance just below / just above each of the three thresholds} up to the depth bound, states deduplicated by a canonical form with times relative to now (soundness argument in h/cctl/hist.go and canon.go; cross-checked against a conservative form and against full replays); after every event: once a run that started after the last write has completed, a cached read returns exactly the store's tuples for its key, DetermineInvalidationTime is not older than the last write while a query entry populated before it may live, and no read ever returns content its key never held; configurations: controller + iterator cache, controller + query cache, each also with 10 % TTL jitter at its maximal draw. (2) INTERLEAVINGS: writer, cached reader (inner iterators that query at open as the memory backend does, or at the first Next as the SQL backends do), triggers, clock advances and the goroutines the code spawns (the run, its changelog read, the cached datastore's background flush) under the scheduler, preemption bounds 0,1,2 required, unbounded best effort, state-key pruning; per interleaving: no deadlock / panic / goroutine or in-flight entry left, reads return content the key held, and after quiescence (with a qualifying run, and again after one more run) fresh reads equal the store",
+		"what": "ONE cachecontroller.InMemoryCacheController and ONE storagewrappers.CachedDatastore (real code, instrumented) over a harness-owned cache with TTLs on a harness clock (an entry is gone once clock >= set time + ttl), a stub datastore (tuple list; changelog stamped with the harness clock; ReadChanges newest first with the caller's page size, one bulk write fills a page) and a harness clock that also carries the controller's 1 s context timeout; controller interval 10 s, iterator TTL 30 s, query TTL 60 s. (1) HISTORIES: breadth-first search over all sequences of {write/delete of 2 tuples, bulk write of one changelog page, cached Read / ReadUsersetTuples / ReadStartingWithUser consumed to the end, Check through the REAL graph.CachedCheckResolver (instrumented internal/graph over the harness cache, scripted delegate answering from the stub store, request carrying DetermineInvalidationTime's answer), trigger = DetermineInvalidationTime or InvalidateIfNeeded + the spawned run to completion (thorough: also a changelog read that exceeds the timeout / fails), clock advance just below / just above each of the three thresholds} up to the depth bound, states deduplicated by a canonical form with times relative to now (soundness argument in h/cctl/hist.go and canon.go; cross-checked against a conservative form and against full replays); after every event: once a run that started after the last write has completed, a cached read returns exactly the store's tuples for its key and a cached Check answers what the store holds, and no read or Check ever returns content its key never held; configurations: controller + iterator cache, controller + query cache, each also with 10 % TTL jitter at its maximal draw. (2) INTERLEAVINGS: writer, cached reader (inner iterators that query at open as the memory backend does, or at the first Next as the SQL backends do), triggers, clock advances and the goroutines the code spawns (the run, its changelog read, the cached datastore's background flush) under the scheduler, preemption bounds 0,1,2 required, unbounded best effort, state-key pruning; per interleaving: no deadlock / panic / goroutine or in-flight entry left, reads return content the key held, and after quiescence (with a qualifying run, and again after one more run) fresh reads equal the store",
 	})
 	if len(sub.Capped) > 0 {
 		r.NotExhaustive(fmt.Sprintf("clock-controlled C11 searches capped inside a required bound (%d): %s", len(sub.Capped), sub.Capped[0]))
